@@ -307,6 +307,9 @@ func c08run(w *report.W) {
 		{"kk: &k kname\nzz: &d {kname: m, mm: x}\nsteps: []\nmeta: {<<: *d, *k : own}\n", "mm=x,kname=own"},
 		{"zz: &d {16: m16, true: mt, mm: x}\nsteps: []\nenv: {<<: *d, 0x10: own16, True: ownT}\n", "mm=x,16=own16,true=ownT"},
 		{"zz: &d {16: m16, mm: x}\nsteps:\n  - command: c\n    agents: {<<: *d, 0x10: own16}\n", "mm=x,16=own16"},
+		// unquoted keys that look like dates / timestamps: kept as written, in place
+		{"steps: []\nmeta: {2024-01-01: a, b: c, 2001-12-14t21:59:43.10-05:00: d}\n", "2024-01-01=a,b=c,2001-12-14t21:59:43.10-05:00=d"},
+		{"steps: []\nenv: {z: 1, 2024-01-01: a}\n", "z=1,2024-01-01=a"},
 		// alias keys whose anchored scalar is not spelled canonically; inline mappings as merge values
 		{"kk: &k 0x10\nzz: &d {16: m16, mm: x}\nsteps: []\nmeta: {<<: *d, *k : own}\n", "mm=x,16=own"},
 		{"kk: &k True\nsteps: []\nmeta: {z: 1, *k : own, true: again}\n", "z=1,true=again"},
